@@ -96,8 +96,8 @@ def run(p, led, tier):
     led.analysed["unresolved"] = [f"{fi.qual}: {short(n)}" for fi, n in unresolved]
     for fi, n in unresolved:
         led.info(f"unresolved receiver of {short(n)} in {fi.qual} (not defined from a tools registry)")
-    if len(sites) < 2:
-        raise AnchorError(f"only {len(sites)} tool execution site(s) found; the expression pathway and the structured tool-call path are expected")
+    if len(sites) < 1:
+        raise AnchorError("no tool execution site found (the expression pathway and the structured tool-call path are expected to reach one)")
 
     # ---- the gate, decided semantically at the public entry points: the tool body runs  ⇔  no ceiling ∨ required ⊆ allowed
     interpreted, sem_ok = _capability_tables(p, led, mito)
